@@ -153,6 +153,10 @@ def gen_index(run):
                 want.append(exp)
                 forms.append('=INDEX(' + area + ',G1,H1)')
                 want.append(('cell', rr, cc, exp))
+                if rr >= 1 and cc >= 1:
+                    # the same numbers as results of a division (held as floats)
+                    forms.append('=INDEX(' + area + ',G1/1,H1/1)')
+                    want.append(('cell', rr, cc, exp))
         # one-index form on vectors
         if rows == 1 or cols == 1:
             n = max(rows, cols)
